@@ -26,7 +26,7 @@ package logout
 //@ func (*Logout).Init
 //@   property C10
 //@   -- logout only reacts to the configured method
-//@   ensures one_method: each Router.Register(?m, ?p, _) => m == l.Config.Modules.LogoutMethod && p == "/logout" && !(before Router.Register(_, _, _))
+//@   ensures one_method: each Router.Register(?m, ?p, _) => m == ab.Config.Modules.LogoutMethod && p == "/logout" && !(before Router.Register(_, _, _))
 //@   ensures registers: result == nil ==> emits Router.Register(_, _, _)
-//@   ensures bad_method_fails: (l.Config.Modules.LogoutMethod != "GET" && l.Config.Modules.LogoutMethod != "POST" && l.Config.Modules.LogoutMethod != "DELETE") ==>
+//@   ensures bad_method_fails: (ab.Config.Modules.LogoutMethod != "GET" && ab.Config.Modules.LogoutMethod != "POST" && ab.Config.Modules.LogoutMethod != "DELETE") ==>
 //@       (result != nil && !emits Router.Register(_, _, _))
